@@ -18,30 +18,30 @@ def _sched(prop, rule, quick, thorough, minq, mint, deciding, extra_assume=()):
 
 REG = {
     "C01": _sched("C01", "random sub-slot/contention projects (all resolutions 5..60 min, ASAP+ALAP, teams, alternatives) + mechanism-free core "
-                  "dialect; non-trivial = at least one (resource,slot) shared by >=2 tasks; distinct = (resolution, mode, multiset of "
-                  "<#tasks sharing, #partial portions> slot patterns)", 4000, 80000, 100, 800, ["monitor:book", "shared-slots"]),
+                  "dialect; non-trivial = at least one (resource,slot) shared by >=2 tasks; distinct = (resolution, mode, set of "
+                  "<#tasks sharing, portion kinds full/anchored/free, team involved?, directions> slot patterns, #shared slots)", 10000, 120000, 100, 600, ["monitor:book", "shared-slots"]),
     "C02": _sched("C02", "hostile-calendar projects: aligned stratum (any violation is new) and non-aligned stratum (slot-start sampling is the "
                   "only accepted mechanism); non-trivial = booked portions on a resource with own hours/zone/leave; distinct = (resolution, mode, "
-                  "zones of booked resources, vacation?, leaves?, cross-midnight?, start month)", 3000, 60000, 100, 600,
+                  "zones of booked resources, vacation?, leaves?, cross-midnight?, start month)", 9000, 100000, 100, 600,
                   ["monitor:book", "portions-checked"]),
     "C03": _sched("C03", "sub-slot + core projects, efficiencies {0.5,0.7,0.8,0.9,1,1.25,2}, teams (equal efficiency), alternatives; non-trivial = "
                   "at least one scheduled effort task; distinct = (resolution, mode, set of <fractional effort?, efficiency, team size, has "
-                  "alternatives>)", 4000, 80000, 100, 800, ["monitor:book", "tasks-scheduled"]),
+                  "alternatives>)", 10000, 120000, 100, 800, ["monitor:book", "tasks-scheduled"]),
     "C04": _sched("C04", "nested DAGs depth<=4 with gaps/on-start/container edges/dated containers, ASAP and ALAP envelope; non-trivial = at "
-                  "least one dependency edge checked; distinct = (depth, edge-kind set, dated container?, mode, resolution)", 3000, 60000, 100, 600,
+                  "least one dependency edge checked; distinct = (depth, edge-kind set, dated container?, mode, resolution)", 9000, 100000, 100, 600,
                   ["edges-checked", "monitor:pick"]),
     "C05": _sched("C05", "overrun projects with resource/group/task daily+weekly limits, special start dates (year ends, week 53, Jan 1-3), "
                   "plus ample-horizon core; non-trivial = at least one limited period with bookings; distinct = (limit scopes+kinds, horizon "
-                  "extended?, resolution, mode, start near ISO year boundary?, start weekday)", 2500, 50000, 80, 500,
+                  "extended?, resolution, mode, start near ISO year boundary?, start weekday)", 8000, 90000, 80, 500,
                   ["limit-periods-checked", "monitor:limit.inc"]),
     "C06": _sched("C06", "sub-slot projects with contention, milestones after mid-slot predecessors + core; non-trivial = a scheduled task that "
                   "starts or ends inside a slot; distinct = (resolution, set of <forward?, start mid-slot, end mid-slot, single-slot>)",
-                  4000, 80000, 60, 300, ["monitor:book", "tasks-scheduled"]),
+                  10000, 120000, 60, 300, ["monitor:book", "tasks-scheduled"]),
     "C08": _sched("C08", "ASAP hostile-calendar (cross-midnight only on mon-sun), ALAP with explicit-end anchors, core; quantifier: effort tasks "
                   "with one unlimited resource; non-trivial = at least one empty slot examined between bound and end; distinct = (mode, "
-                  "resolution, #empty slots bucket, #tasks, shifts?, zones?)", 3000, 60000, 100, 600, ["tasks-checked", "empty-slots-examined"]),
+                  "resolution, #empty slots bucket, #tasks, shifts?, zones?)", 9000, 100000, 100, 600, ["tasks-checked", "empty-slots-examined"]),
     "C10": _sched("C10", "task trees depth<=5 incl. milestone-only containers and unschedulable leaves; non-trivial = at least one container; "
-                  "distinct = (depth, #containers, any unscheduled leaf?, any scheduled leaf?, mode)", 3000, 60000, 40, 150,
+                  "distinct = (depth, #containers, any unscheduled leaf?, any scheduled leaf?, mode)", 8000, 90000, 40, 150,
                   ["containers-checked", "monitor:pick"]),
     "C07": dict(module="vlib.props.c07", level="exploration",
                 rule="(a) every project of the small universe (<=3 leaf tasks x effort {1,2} slots x priority {low,high} x every labelled DAG x "
@@ -61,14 +61,14 @@ REG = {
                      "nothing depends on it; precondition 'same horizon' is observed from project end in both runs; non-trivial = the intruder "
                      "books a resource-day that P's tasks use; distinct = (mode, resolution, position first/last, pinned?, >1 shared day, limits?, "
                      "#resources); plus the two-task corollary",
-                quick=dict(cases=2500, budget_s=150, min_nontrivial=40, case_timeout=40),
+                quick=dict(cases=5000, budget_s=150, min_nontrivial=40, case_timeout=40),
                 thorough=dict(cases=40000, budget_s=900, min_nontrivial=150, case_timeout=60),
                 deciding_monitors=["pairs", "monitor:pick"], assumptions=BASE_ASSUME),
     "C14": dict(module="vlib.props.meta", level="exploration",
                 rule="pairs (model, model with every date + k weeks), k in {1,4,26,52,53,104,157,209,313} or aimed at Jan 1-3 2021/2027/2033, "
                      "Dec 31, Feb 29; UTC projects without resource zones; durations in days/weeks; distinct = (k class, what the shifted window "
                      "straddles, limits?, mode, resolution, start weekday)",
-                quick=dict(cases=2500, budget_s=150, min_nontrivial=100, case_timeout=40),
+                quick=dict(cases=5000, budget_s=150, min_nontrivial=100, case_timeout=40),
                 thorough=dict(cases=40000, budget_s=900, min_nontrivial=500, case_timeout=60),
                 deciding_monitors=["pairs"], assumptions=BASE_ASSUME + ["resources carry no time zone (a DST zone legitimately breaks week-shift invariance)"]),
     "C15": dict(module="vlib.props.meta", level="exploration",
@@ -76,7 +76,7 @@ REG = {
                      "keyword-like ids), relative/absolute references, depends<->precedes (options carried), shift reference<->inline hours, "
                      "comments/whitespace, macros with and without arguments; singly and composed; distinct = (rewrite set, mode, depth, gaps?, "
                      "shifts?, container deps?)",
-                quick=dict(cases=2500, budget_s=150, min_nontrivial=60, case_timeout=40),
+                quick=dict(cases=5000, budget_s=150, min_nontrivial=60, case_timeout=40),
                 thorough=dict(cases=40000, budget_s=900, min_nontrivial=200, case_timeout=60),
                 deciding_monitors=["pairs"], assumptions=BASE_ASSUME),
     "C16": dict(module="vlib.props.meta", level="exploration",
@@ -84,7 +84,7 @@ REG = {
                      "project with its effective attributes (same horizon observed), scenario without overrides vs parent, M-scen at every scenario "
                      "entry (ledgers empty, limit counters zero, no object shared between scenarios); distinct = (#scenarios, nested count, "
                      "#overrides, resolution, limits?, horizon extended?)",
-                quick=dict(cases=1200, budget_s=150, min_nontrivial=40, case_timeout=60),
+                quick=dict(cases=2400, budget_s=150, min_nontrivial=40, case_timeout=60),
                 thorough=dict(cases=20000, budget_s=900, min_nontrivial=150, case_timeout=90),
                 deciding_monitors=["scenario-comparisons", "monitor:scen-entry"], assumptions=BASE_ASSUME),
     "C13": dict(module="vlib.props.native", level="exploration",
@@ -112,7 +112,7 @@ REG = {
                      "bodies, zero/odd project durations and timing resolutions, 1-40 leaves on one resource, many leave lines, scenarios x group "
                      "limits, repository fixtures, and token-level corruptions (delete/duplicate/swap/truncate/boundary literal) of all of these; "
                      "distinct = (class, outcome, exception type+site | unscheduled?, warned?, #leaves, #scenarios)",
-                quick=dict(cases=3000, budget_s=200, min_nontrivial=60, case_timeout=60),
+                quick=dict(cases=2400, budget_s=200, min_nontrivial=60, case_timeout=60),
                 thorough=dict(cases=60000, budget_s=1200, min_nontrivial=150, case_timeout=90),
                 deciding_monitors=["monitor:pick", "steps", "outcome:returned", "outcome:rejected"],
                 params=dict(step_cap=120000000, step_base=2000000, step_ratio=60.0), timeouts_ok=False,
@@ -131,6 +131,39 @@ REG = {
                 quick=dict(pool=40, histories=160, maxlen=14, min_nontrivial=40), thorough=dict(pool=120, histories=4000, maxlen=30, min_nontrivial=80),
                 deciding_monitors=["history-comparisons", "fresh-comparisons"],
                 assumptions=BASE_ASSUME + ["texts avoid ${now}/${today} (wall-clock by definition)"]),
+    "C19": dict(module="vlib.props.cli", level="fault_enumeration", engine="cli-process-harness",
+                technique="runtime monitoring of the real CLI processes: stdout/stderr/exit status per invocation vs the API result for the same bytes",
+                rule="generated projects with 0-3 own reports (json/csv/both) x {file, '-', implicit stdin} x {json, csv}, invocations with own "
+                     "JSON reports repeated; bad-input classes {missing, directory, empty file, blank/empty stdin, syntax error (file+stdin), "
+                     "truncated, invalid report file name, undecodable bytes} x both formats; byte-exactness on CRLF / BOM / non-ASCII input; "
+                     "distinct = (#own reports, all scheduled?, rejected by API?, mode, #tasks) + (bad class, format, exit status)",
+                quick=dict(projects=24, min_nontrivial=20), thorough=dict(projects=400, min_nontrivial=60),
+                deciding_monitors=["invocations", "bad-input-invocations", "api-projects"],
+                assumptions=["/venv/bin/plan with PYTHONPATH=/repo is the CLI under test", "for a project with unschedulable tasks either (0 + full report with "
+                             "empty dates) or (2 + empty stdout) is accepted, identically for file and stdin; undecodable input may exit 1 or 2",
+                             "permission-denied cannot be produced as root; -o/--force are not in the property"]),
+    "C20": dict(module="vlib.props.cli", level="fault_enumeration", engine="cli-process-harness",
+                technique="runtime monitoring: strace-recorded create/unlink/mkdir/rmdir/rename histories of concurrent real CLI processes with injected "
+                          "delays, directory snapshots, solitary-run reference bytes, failpoints via sitecustomize, SIGINT",
+                rule="rounds of N concurrent `plan report` processes in one cwd and one TMPDIR (same file / different files / stdin, both formats, "
+                     "~20% failing inputs) under strace with delay injection on mutating calls; every failpoint (site x nth x exception type incl. "
+                     "SystemExit/KeyboardInterrupt/MemoryError) and SIGINT at varied instants; distinct = distinct orders of (process, create/remove) "
+                     "events in the merged traces + (failpoint site, exception, exit status, leftovers?)",
+                quick=dict(rounds=[2, 8, 16, 32], failpoints=48, sigints=10, min_nontrivial=25, failing_share=0.2),
+                thorough=dict(rounds=[2, 8, 32, 64, 128, 128, 32, 16, 8, 100, 48, 24], failpoints=400, sigints=60, min_nontrivial=80, failing_share=0.25),
+                deciding_monitors=["concurrent-processes", "fs-events", "failpoint-runs", "solitary-runs"],
+                assumptions=["cleanup after SIGTERM/SIGKILL is not demanded (no program can); behaviour with -o is not in the property",
+                             "interleavings are sampled (delay injection varies them), not enumerated"]),
+    "C18": dict(module="vlib.props.c18", level="exploration",
+                rule="scheduled projects of 5 dialects (rates on resources, odd task names) x 1-3 random taskreport definitions: column subsets and "
+                     "permutations of {id,name,start,end,effort,priority,cost} with optional titles, 8 time formats (report and project level), "
+                     "leaftasksonly true/false/absent, formats json/csv/both; each report generated 3x + written to files; distinct = (columns, "
+                     "report time format, project time format, leaf flag, formats, any unscheduled task?, titles?)",
+                quick=dict(cases=5000, budget_s=150, min_nontrivial=150, case_timeout=40),
+                thorough=dict(cases=40000, budget_s=900, min_nontrivial=800, case_timeout=60),
+                deciding_monitors=["cells-checked", "monitor:report.generate_intermediate_format", "json-csv-comparisons"],
+                assumptions=BASE_ASSUME + ["hidetask/hideresource/sorting are not in the property's quantifier; the rendering of an inherited priority "
+                                           "is not claimed"]),
 }
 
 
